@@ -1,7 +1,8 @@
 import AmrK.ColumnAffine
 import AmrK.Chunks
+import AmrK.ChunksCover
 import AmrK.Basic
-import AmrK.ConstantsProps
+import AmrK.Obligations.MandolineLiteral
 /-! # C16 — mandoline's plotfile-format slice is a valid 2D plotfile of the plane data
 
 The data written for level `l` at a cell is the column model (C07) evaluated on the configuration
@@ -48,6 +49,13 @@ theorem chunks_le (n k : Nat) (hk : 0 < k) : Chunks.cdiv n (max (Chunks.cdiv n k
 /-- and the chunks cover all `n` boxes -/
 theorem chunks_cover (n k : Nat) (hk : 0 < k) : n ≤ max (Chunks.cdiv n k) 1 * Chunks.cdiv n (max (Chunks.cdiv n k) 1) :=
   Chunks.le_mul_cdiv n _ (by omega)
+
+/-- **every listed box is written to exactly one binary file, in order**: with the repaired chunk size
+    and the `nfiles + 1` names the code prepares, the chunks `boxes[i : i + chunk]` concatenate to
+    all `n` boxes — for all `n` and `nfiles` -/
+theorem every_box_written_once (n nfiles : Nat) (hf : 0 < nfiles) :
+    (Chunks.written n (max (Chunks.cdiv n nfiles) 1) (nfiles + 1)).flatten = List.range n :=
+  Chunks.repaired_covers n nfiles hf
 
 /-- the FAB header literal duplicated in `write_cell_data_at_level` equals `header_from_indices`'
     (regenerated from the source on every run) — otherwise taste rejects the slice -/
